@@ -1,3 +1,6 @@
+//go:build mysql || postgres
+// +build mysql postgres
+
 package postgres
 
 // C18 — multi-row store updates are all-or-nothing (SQL adapters).
@@ -13,6 +16,12 @@ package postgres
 // a pure function of the case. The oracle only looks at what the property names
 // as observation points: the sequence of BEGIN / statement / COMMIT / ROLLBACK the
 // database server saw, per connection, and the error returned to the caller.
+//
+// Units (registered in units.d/c18.py): TestC18<Adapter> (rapid-generated cases),
+// TestC18<Adapter>Enum (every k x every kind for a fixed scenario list), TestC18<Adapter>Stall
+// (thorough tier only, real time: statement k answered after the sql_timeout deadline).
+// Development aids: TestC18<Adapter>Show with C18_SHOW=1|short prints the fault-free trace of
+// every enumeration scenario; C18_SQL_TIMEOUT=1 runs every case with sql_timeout=1.
 //
 // Position numbering: every statement the server receives during the adapter call
 // counts (BEGIN/START TRANSACTION = 1, PREPARE and EXECUTE count separately for
@@ -441,7 +450,10 @@ func c18Run(c *c18Case, k int, kind string) c18RunRes {
 	}
 	defer srv.stop()
 	adp := c18NewAdapter()
-	if err := adp.Open(json.RawMessage(srv.config(kind == "stall"))); err != nil {
+	// C18_SQL_TIMEOUT=1 is a development aid: run every case with sql_timeout=1 (as the Stall
+	// units do) to see what the drivers' deadline handling adds; not used by any registered unit.
+	withTimeout := kind == "stall" || os.Getenv("C18_SQL_TIMEOUT") != ""
+	if err := adp.Open(json.RawMessage(srv.config(withTimeout))); err != nil {
 		return c18RunRes{OpenFn: "open: " + err.Error()}
 	}
 	srv.core.arm(c.S, k, kind)
@@ -462,7 +474,7 @@ func c18Run(c *c18Case, k int, kind string) c18RunRes {
 	case <-time.After(30 * time.Second): // safety net against a bug in the fake server, not an oracle
 		return c18RunRes{Hang: true, Evs: srv.core.snapshot()}
 	}
-	if kind == "stall" {
+	if withTimeout {
 		// Deadline expiry is handled asynchronously by the drivers (database/sql rolls back from
 		// a watcher goroutine, pgx closes the connection from one): give the server up to 10 s of
 		// real time to see the end of the transaction. Only "still open after that" is judged.
